@@ -24,6 +24,8 @@ type ref struct {
 	// for the listing oracle: index type, the span of timestamps a series has held since it
 	// was last absent, and the series that were emptied by a delete that did not span it
 	indexType string
+	side      map[string]bool // series another shard of the database held when it was deleted as a whole
+	sideLive  map[string]bool // series another shard of the database holds
 	span      map[string][2]int64
 	piecemeal map[string]bool
 }
@@ -121,6 +123,23 @@ func (r *ref) step(f []string, op, o string) fw.Verdict {
 		if len(f) > 1 {
 			r.indexType = f[1]
 		}
+	case "sidew":
+		if r.sideLive == nil {
+			r.sideLive = map[string]bool{}
+		}
+		for _, p := range parsePts(f[1]) {
+			r.sideLive[p.meas+"|"+p.tags] = true
+		}
+	case "sidedel":
+		if r.side == nil {
+			r.side = map[string]bool{}
+		}
+		for s := range r.sideLive {
+			r.side[s] = true
+		}
+		r.sideLive = nil
+	case "reopen":
+		r.side = nil // (the in-memory index is rebuilt from the files)
 	case "w":
 		pts := parsePts(f[1])
 		want := r.write(pts)
@@ -203,6 +222,8 @@ func (r *ref) step(f []string, op, o string) fw.Verdict {
 		return r.step(append([]string{"w"}, f[1:]...), op, o)
 	case "cdel":
 		return r.step([]string{"del", f[1], "-", f[2], f[3]}, op, o)
+	case "copyagain":
+		return r.step([]string{"bk", "full", f[2], f[3]}, op, o)
 	case "copy":
 		if f[1] != "full" {
 			if o != "refused" {
@@ -569,6 +590,16 @@ func (r *ref) listing(f []string, op, o string) fw.Verdict {
 	for series := range r.piecemeal {
 		add(series, ling)
 	}
+	sideVals := map[string]bool{}
+	for series := range r.side {
+		add(series, sideVals)
+	}
+	if strings.HasPrefix(r.indexType, "inmem") {
+		// the in-memory index is one per database: what another shard holds may be listed
+		for series := range r.sideLive {
+			add(series, may)
+		}
+	}
 	for x := range got {
 		if !may[x] {
 			sig := f[0] + " listing keeps something whose points were all removed"
@@ -579,6 +610,8 @@ func (r *ref) listing(f []string, op, o string) fw.Verdict {
 				sig = "listing keeps a series emptied by several partial deletes"
 			case f[0] == "tagvals" && strings.HasPrefix(r.indexType, "tsi1"):
 				sig = "tagvals listing keeps a value whose series were all deleted (tsi1 index)"
+			case f[0] == "tagvals" && strings.HasPrefix(r.indexType, "inmem") && sideVals[x]:
+				sig = "tagvals listing keeps a value of a deleted shard's series (inmem index)"
 			}
 			return fw.Verdict{OK: false, Why: fmt.Sprintf("%s answered %.300s: %q is listed although all its points were removed", op, o, x), Signature: sig}
 		}
